@@ -170,34 +170,40 @@ Section Go.
     end.
 
   (* _process_repeated_resources, with the child's value referred to by its
-     `child.resource` symbol (which parameter_map[None] defines) *)
+     `child.resource` symbol (which parameter_map[None] defines).  It only looks
+     at the names and types of the child's resources. *)
+  Definition repeated_resources_nt (rp : repetition) (own : list resource) (cn : string)
+             (nts : list (string * rtype)) : result (list resource) :=
+    if negb (forallb (fun r => match lookup (r_name r) nts with
+                               | Some _ => match r_value r with
+                                           | ESym s => String.eqb s (dot cn (r_name r))
+                                           | EOp OAdd [ESym s] | EOp OMul [ESym s] => String.eqb s (dot cn (r_name r))
+                                           | _ => false
+                                           end
+                               | None => false
+                               end) own)
+    then EInternal 6
+    else
+      do rs <- mapM (fun nt =>
+                       let '(rn, rt) := nt in
+                       let child_sym := ESym (dot cn rn) in
+                       match rep_action_of rt (seq_is_constant (rep_seq rp)) with
+                       | RepSum => match seq_sum (rep_seq rp) child_sym (rep_count rp) with
+                                   | Some e => Ok [Build_resource rn rt e] | None => ECompile end
+                       | RepProd => match seq_prod (rep_seq rp) child_sym (rep_count rp) with
+                                    | Some e => Ok [Build_resource rn rt e] | None => ECompile end
+                       | RepSkip => Ok []
+                       | RepError => ECompile
+                       end) nts;
+      Ok (List.concat rs).
+
+  Definition names_types (rs : list (string * (rtype * D))) : list (string * rtype) :=
+    map (fun nr => (fst nr, fst (snd nr))) rs.
+
   Definition repeated_resources (rp : repetition) (own : list resource) (kids : list (ctree D))
     : result (list resource) :=
     match kids with
-    | [kid] =>
-        let cn := ct_name kid in
-        if negb (forallb (fun r => match lookup (r_name r) (ct_resources kid) with
-                                   | Some _ => match r_value r with
-                                               | ESym s => String.eqb s (dot cn (r_name r))
-                                               | EOp OAdd [ESym s] | EOp OMul [ESym s] => String.eqb s (dot cn (r_name r))
-                                               | _ => false
-                                               end
-                                   | None => false
-                                   end) own)
-        then EInternal 6
-        else
-          do rs <- mapM (fun nr =>
-                           let '(rn, (rt, _)) := nr in
-                           let child_sym := ESym (dot cn rn) in
-                           match rep_action_of rt (seq_is_constant (rep_seq rp)) with
-                           | RepSum => match seq_sum (rep_seq rp) child_sym (rep_count rp) with
-                                       | Some e => Ok [Build_resource rn rt e] | None => ECompile end
-                           | RepProd => match seq_prod (rep_seq rp) child_sym (rep_count rp) with
-                                        | Some e => Ok [Build_resource rn rt e] | None => ECompile end
-                           | RepSkip => Ok []
-                           | RepError => ECompile
-                           end) (ct_resources kid);
-          Ok (List.concat rs)
+    | [kid] => repeated_resources_nt rp own (ct_name kid) (names_types (ct_resources kid))
     | _ => EInternal 7
     end.
 
@@ -261,6 +267,17 @@ End Go.
 Arguments go {D}.
 Arguments go_node {D}.
 Arguments pm_put {D}.
+Arguments compile_locals {D}.
+Arguments compile_links {D}.
+Arguments eval_ports {D}.
+Arguments put_port_sizes {D}.
+Arguments eval_constraints {D}.
+Arguments eval_seq {D}.
+Arguments eval_rep {D}.
+Arguments repeated_resources {D}.
+Arguments names_types {D}.
+Arguments compile_children {D}.
+Arguments pmap : clear implicits.
 
 (* ---------- the two instances ---------- *)
 
